@@ -169,6 +169,36 @@ func elemOfParam(fn *ssa.Function, v ssa.Value) (int, int64, bool) {
 
 func c15(p *core.Program, r *core.Report) {
 	sqrtRadicandRule(p, r, "sqrt-radicand-nonnegative", "xy", "xy/internal", "xyz")
+	const rs = "every-segment-measured"
+	r.Rule(rs, "in DistanceFromPointToLineString every call of the point-to-segment distance sits inside the loop that walks the line's segments (or in the function literal handed to the iterator that does): the minimum is taken over all segments - measuring only the segments next to the nearest vertex misses a long segment that passes close to the point", 1)
+	if fn := mustFn(p, r, rs, "xy", "DistanceFromPointToLineString"); fn != nil {
+		n := 0
+		var scan func(f *ssa.Function, inLit bool)
+		scan = func(f *ssa.Function, inLit bool) {
+			loops := eng.Loops(f)
+			for _, c := range eng.Calls(f) {
+				g := eng.StaticCallee(c)
+				if g == nil || g.Name() != "DistanceFromPointToLine" {
+					continue
+				}
+				n++
+				inLoop := inLit
+				for _, l := range loops {
+					if l.Body[c.Block()] {
+						inLoop = true
+					}
+				}
+				r.Check(inLoop, rs, fmt.Sprintf("%s/segment-distance#%d", short(f), n), p.Pos(c.Pos()), true, "inside the walk over the segments", "the segment distance at "+p.Pos(c.Pos())+" is computed outside any loop over the segments: only selected segments are measured, the others are assumed to be farther away")
+			}
+			for _, a := range f.AnonFuncs {
+				scan(a, true)
+			}
+		}
+		scan(fn, false)
+		if n == 0 {
+			r.Bad(rs, short(fn)+"/segment-distance", p.Pos(fn.Pos()), "DistanceFromPointToLineString no longer measures segments with DistanceFromPointToLine")
+		}
+	}
 	const r1 = "zero-length-guards"
 	r.Rule(r1, "the 2D and 3D siblings test the same pairs of parameters for coordinate equality before the main computation: point-segment (lineStart,lineEnd); segment-segment {(line1Start,line1End),(line2Start,line2End)} - closed under exchanging the two segments - and on each guard's true edge they return the point-to-segment distance of a point of the degenerate segment to the other segment", 6)
 	type fnSpec struct {
